@@ -86,6 +86,12 @@ def config(rng):
         opts = ["--userff={dir}/u.dat", "--usernames={dir}/u.names"]
     if rng.random() < 0.12:
         w = {"named": "1AJJ"}
+    elif rng.random() < 0.2 and flavour not in ("userff", "usernames"):
+        # chain-topology stressors: blank / repeated chain ids, hidden chain ends (OXT mid-chain, no TER) - the code
+        # has to invent chain ids; --keep-chain makes them visible
+        w = {"w": "topostress", "seed": rng.randrange(10 ** 6), "ff": ff, "p": {}}
+        if "--keep-chain" not in opts and opts != ["--clean"] and rng.random() < 0.7:
+            opts = opts + ["--keep-chain"]
     else:
         w = {"w": rng.choice(["synth", "synth", "frag"]), "seed": rng.randrange(10 ** 6), "ff": ff,
              "p": {"maxlen": 6, "waters": [0, 2, 4], "na_prob": 0.2, "variant_prob": 0.15, "damage_prob": 0.15}}
